@@ -59,6 +59,7 @@ impl<'a> LTr<'a> {
                     "Read" => write!(binders, " [Rs.Read {p}]").unwrap(),
                     "Write" => write!(binders, " [Rs.Write {p}]").unwrap(),
                     "AesKind" => {}
+                    "Cipher:KeyInit" => write!(binders, " [Rs.AesKind {p}]").unwrap(),
                     other => return Err(format!("trait bound {other}")),
                 }
             }
